@@ -1038,6 +1038,19 @@ def check_deepcopy(ctx, res: Result, dotted: str, rule="E-FRESHCOPY"):
                         if is_meta and one_level:
                             res.violation(rule, fi.short, norm(n)[:140], "deep:" + src + ":records", f"the records of {src} are copied one level deep: what a metadata record contains (lists, nested dicts) is shared between the copy and the original - copy.deepcopy is what makes the copy independent", loc(fi, n))
                             shared.append((None, src))
+            # a copy filled from a SNAPSHOT of the source: `h._restore(self._snapshot())` with `_snapshot` returning `{"_node_metadata":
+            # dict(self._node_metadata), ...}` - the one-level copies are made in the helper
+            for c_ in walk_no_nested(fi.node):
+                if isinstance(c_, ast.Call) and isinstance(c_.func, ast.Attribute) and isinstance(c_.func.value, ast.Name) and c_.func.value.id == obj:
+                    for a_ in c_.args:
+                        if isinstance(a_, ast.Call) and is_self_attr(a_.func) and not a_.args:
+                            for callee in ctx.callees(fi, a_):
+                                for r_ in ast.walk(callee.node):
+                                    if isinstance(r_, ast.Return) and isinstance(r_.value, ast.Dict):
+                                        for val_ in r_.value.values:
+                                            src = shallow_of_self_table(val_)
+                                            if src is not None and mutable_values(src):
+                                                shared.append((c_, src + f" (in {callee.short})"))
             shared_real = [(n, src) for n, src in shared if n is not None]
             if shared and not shared_real:
                 continue
